@@ -542,7 +542,8 @@ class GenericPlainRegistry(Generic[QuantityT, UnitT], metaclass=RegistryMeta):
 
         It warns or raise error on redefinition.
         """
-        if key in target_dict:
+        is_new = key not in target_dict
+        if not is_new:
             if self._on_redefinition == "raise":
                 raise RedefinitionError(key, type(value))
             elif self._on_redefinition == "warn":
@@ -556,6 +557,20 @@ class GenericPlainRegistry(Generic[QuantityT, UnitT], metaclass=RegistryMeta):
             # before this definition existed.
             self._cache.parse_unit.pop(key, None)
             self._prefixed_units.discard(key)
+            if is_new:
+                # ... and so may containers spelled with it, with a prefix or as a
+                # plural (get_dimensionality, get_compatible_units and
+                # get_root_units accept any spelling).
+                def mentions(units: UnitsContainer) -> bool:
+                    return any(key in name for name in units)
+
+                cache = self._cache
+                for memo in (cache.dimensionality, cache.root_units):
+                    for units in [units for units in memo if mentions(units)]:
+                        del memo[units]
+                memo = cache.conversion_factor
+                for pair in [p for p in memo if mentions(p[0]) or mentions(p[1])]:
+                    del memo[pair]
 
     def _add_defaults(self, defaults_definition: DefaultsDefinition) -> None:
         for k, v in defaults_definition.items():
